@@ -513,6 +513,8 @@ def handle (toks : List String) : String :=
         s!"{s.encoding.getD "-"}:{match s.csegBlock with | some (a, b, c) => s!"{a}.{b}.{c}" | none => "-"}"
       s!"{i.type.getD "-"} {i.dataType} {" ".intercalate sc}"
     | _, _ => "bad-request"
+  | ["resolve-method", method, ty] =>
+    Pipeline.resolveMethod method (if ty == "-" then none else some ty)
   | ["status", steps] =>
     toString (Pipeline.status (steps.toList.map fun c => if c == '1' then (Except.ok () : Except Unit Unit) else .error ()))
   | ["http-dispatch", opt, info] =>
